@@ -12,10 +12,11 @@ CTYPE = {
     'double': 'double', 'cptr': 'const int*', 'E8': 'vf::E8', 'E32': 'vf::E32', 'B3': 'vf::B3', 'B5': 'vf::B5',
     'B12': 'vf::B12', 'B24': 'vf::B24', 'Tracked': 'vf::Tracked', 'TrackedMO': 'vf::TrackedMO',
     'string': 'std::string', 'uptr': 'std::unique_ptr<int>', 'SelfRef': 'vf::SelfRef', 'Handle': 'vf::Handle',
+    'Stamped': 'vf::Stamped',
 }
 SIZEOF = {'u8': 1, 'i8': 1, 'char': 1, 'byte': 1, 'bool': 1, 'u16': 2, 'u32': 4, 'i32': 4, 'u64': 8, 'sz': 8,
           'float': 4, 'double': 8, 'cptr': 8, 'E8': 1, 'E32': 4, 'B3': 3, 'B5': 5, 'B12': 12, 'B24': 24,
-          'Tracked': 16, 'TrackedMO': 16, 'string': 32, 'uptr': 8, 'SelfRef': 16, 'Handle': 8}
+          'Tracked': 16, 'TrackedMO': 16, 'string': 32, 'uptr': 8, 'SelfRef': 16, 'Handle': 8, 'Stamped': 8}
 TRIVIAL = {'u8', 'i8', 'char', 'byte', 'bool', 'u16', 'u32', 'i32', 'u64', 'sz', 'float', 'double', 'cptr', 'E8',
            'E32', 'B3', 'B5', 'B12', 'B24', 'Handle'}
 MOVE_ONLY = {'TrackedMO', 'uptr', 'Handle'}
@@ -69,7 +70,7 @@ def valid(params):
             if i == 0:
                 return False
             pk, pt, pa = params[i - 1]
-            if pk != 'p' or pt not in COUNT_TYPES:
+            if pk != 'p' or pt not in COUNT_TYPES + ['u64']:
                 return False
             if t == 'byte':
                 # D13: the library classifies std::byte as not trivially swappable (std::swap is found by ADL), and
@@ -175,6 +176,11 @@ def core_pool():
     c.append(make([p('u8'), v('SelfRef')], tags={'nontrivial', 'lowalign', 'selfref'}))
     c.append(make([f('SelfRef'), p('u16')], tags={'nontrivial', 'selfref'}))
     c.append(make([p('SelfRef', 8), p('u8'), v('u16')], tags={'nontrivial', 'layout', 'alignedfirst', 'selfref'}))
+    # value types with a user-provided assignment operator but trivial copy construction / destruction, next to
+    # trivially assignable fields (the runs that reference assignment memmoves and swap exchanges bytewise)
+    c.append(make([p('i32'), p('Stamped'), f('Stamped')], tags={'nontrivial', 'stamped'}))
+    c.append(make([f('Stamped'), p('u32'), p('Stamped'), p('u8')], tags={'nontrivial', 'stamped'}))
+    c.append(make([p('Stamped', 8), p('u8'), v('u16'), f('Stamped')], tags={'nontrivial', 'stamped', 'layout', 'alignedfirst'}))
     # runs of byte-comparable fields around FixedSize / VaryingSize spans (what the comparison fast paths coalesce)
     c.append(make([f('u8'), p('u8'), f('u8')], tags={'memcmp', 'lowalign'}))
     c.append(make([f('u8'), p('u8'), v('u8')], tags={'memcmp', 'lowalign'}))
@@ -238,7 +244,7 @@ def allocator_pool():
 # ---------------------------------------------------------------------------------------------------------------
 TRIV_POOL = ['u8', 'i8', 'char', 'byte', 'bool', 'u16', 'u32', 'i32', 'u64', 'float', 'double', 'cptr', 'E8', 'E32',
              'B3', 'B5', 'B12', 'B24', 'Handle']
-NONTRIV_POOL = ['Tracked', 'Tracked', 'TrackedMO', 'string', 'uptr', 'SelfRef']
+NONTRIV_POOL = ['Tracked', 'Tracked', 'TrackedMO', 'string', 'uptr', 'SelfRef', 'Stamped']
 ALIGNS = [2, 4, 8, 16, 32, 64]
 
 
